@@ -51,12 +51,15 @@ def _models(c):
             self.last = last
             self.appended = []
 
+        def pyvc_truth(self, ip):
+            return bool(self.appended) or self.last is not None
+
         def pyvc_getitem(self, ip, idx):
             if idx == -1:
                 if self.appended:
                     return self.appended[-1]
                 if self.last is None:
-                    raise I.Unsupported("last segment of an arbitrary prefix")
+                    ip.raise_py('IndexError', 'list index out of range')
                 return self.last
             raise I.Unsupported("segment list access")
 
@@ -97,7 +100,7 @@ def _seg_matches(c, obj, spec):
                    ops.Iff(g('large_arc'), spec[5]), ops.Iff(g('sweep'), spec[6]), ops.eq(g('end'), spec[7]))
 
 
-def _check_post(c, letter, pre_command, pre_absolute):
+def _check_post(c, letter, pre_command, pre_absolute, last_kind='none'):
     """drives one iteration and compares with the reference step (runs inside the loop rule's
     third invariant call so that it sees the post-state)"""
     TokenStack, SegList = _models(c)
@@ -115,14 +118,30 @@ def _check_post(c, letter, pre_command, pre_absolute):
         cq = c.cplx('prev_c')
         last = c.new('path.QuadraticBezier', c.cplx('prev_s'), cq, cur)
         prev = ('quad', cq)
+    made_arcs = []
+    _arc_constructor_contract(c, made_arcs)
+    if last is None and last_kind != 'none':
+        # in a state without previous-curve information the coupling invariant says nothing about
+        # the last stored segment: it is an arbitrary segment of an arbitrary class (e.g. a cubic
+        # of an earlier subpath), or there is none
+        z = lambda n: c.cplx('last_' + n)
+        if last_kind == 'L':
+            last = c.new('path.Line', z('s'), z('e'))
+        elif last_kind == 'Q':
+            last = c.new('path.QuadraticBezier', z('s'), z('c'), z('e'))
+        elif last_kind == 'C':
+            last = c.new('path.CubicBezier', z('s'), z('c1'), z('c2'), z('e'))
+        else:
+            c.assume(ops.ne(z('s'), z('e')))
+            last = c.new('path.Arc', z('s'), ops.cx(1, 1), 0, False, True, z('e'))
     args = [c.real('a%d' % i) for i in range(svg.ARITY[up])]
     toks = ([letter] if letter is not None else []) + [I.Num(a) for a in args]
     seglist = SegList(last)
-    made_arcs = []
-    _arc_constructor_contract(c, made_arcs)
     alternatives = svg.step({'cur': cur, 'start': start, 'prev': prev}, eff, args)
     calls = [0]
     tag = '%s after %s' % (eff if letter is not None else 'implicit ' + eff, pre_command)
+    if last_kind != 'none':
+        tag += ' (last stored segment: %s)' % last_kind
 
     def compare(v):
         pcur, pstart, pcmd = v['current_pos'], v['start_pos'], v['command']
@@ -174,18 +193,22 @@ def _check_post(c, letter, pre_command, pre_absolute):
     c.ensures('one-iteration-raises-nothing[%s]' % tag, out.kind == 'ok', exception=out.exc, message=out.msg)
 
 
-EXPLICIT = [{'letter': l, 'pre': p, '_no_bounded': True} for l in LETTERS for p in PRE_COMMANDS]
-IMPLICIT = [{'pre': p, 'absolute': a, '_no_bounded': True} for p in PRE_COMMANDS if p is not None for a in (True, False)]
+def _last_kinds(p):
+    return ['none'] if p in ('C', 'S', 'Q', 'T') else ['none', 'L', 'Q', 'C', 'A']
+
+
+EXPLICIT = [{'letter': l, 'pre': p, 'last': k, '_no_bounded': True} for l in LETTERS for p in PRE_COMMANDS for k in _last_kinds(p)]
+IMPLICIT = [{'pre': p, 'absolute': a, 'last': k, '_no_bounded': True} for p in PRE_COMMANDS if p is not None for a in (True, False) for k in _last_kinds(p)]
 
 
 @contract('C02', 'path.Path._parse_path', params=EXPLICIT)
-def explicit_command_step(c, letter, pre):
-    _check_post(c, letter, pre, None)
+def explicit_command_step(c, letter, pre, last):
+    _check_post(c, letter, pre, None, last)
 
 
 @contract('C02', 'path.Path._parse_path', params=IMPLICIT)
-def implicit_repetition_step(c, pre, absolute):
-    _check_post(c, None, pre, absolute)
+def implicit_repetition_step(c, pre, absolute, last):
+    _check_post(c, None, pre, absolute, last)
 
 
 @contract('C02', 'path.Path._parse_path', params=[{'_no_bounded': True}])
